@@ -24,7 +24,7 @@ impl Property for C13 {
         }
     }
     fn required_classes(&self) -> Vec<&'static str> {
-        vec!["fail-at-ctor", "fail-at-checked-row", "fail-at-mid-clock-write", "dev:drop", "dev:add", "dev:duplicate", "dev:swap", "dev:substitute", "dev:rewidth", "overriding-driver", "defaulting-driver"]
+        vec!["fail-at-ctor", "fail-at-checked-row", "fail-at-mid-clock-write", "dev:drop", "dev:add", "dev:duplicate", "dev:swap", "dev:substitute", "dev:rewidth", "overriding-driver", "defaulting-driver", "row-after-deviation-checked"]
     }
     fn run(&self, s: &Streams) -> CaseOut {
         let mut out = CaseOut::new();
@@ -123,10 +123,41 @@ impl Property for C13 {
             spec.deviate_at = Some((c, dev));
             render_case(&mut out, &text, &built.sigs, Some(&spec));
             out.nontrivial = n >= 2;
-            let real = run_real(&tc, &built.sigs, &spec, &opts);
+            // the caller keeps iterating after the error item: "no row that is returned EVER
+            // attributes to a signal a value the driver reported for a different signal"
+            let real = run_real(&tc, &built.sigs, &spec, &RunOpts { continue_after_error: true, ..RunOpts { max_next: opts.max_next, fuel: opts.fuel, ..Default::default() } });
             if real.ctor.is_some() {
                 out.fail("c13:ctor-differs", format!("constructor outcome changed by a deviation at a later call: {:?}", real.ctor));
                 return out;
+            }
+            // attribution of every returned row, before and after the deviating call
+            for (i, item) in real.items.iter().enumerate() {
+                let RealItem::Row(row) = item else { continue };
+                if row.outputs.is_empty() {
+                    continue;
+                }
+                if real.log_len_before[i + 1] != real.log_len_before[i] + 1 {
+                    break;
+                }
+                let call = &real.log[real.log_len_before[i]];
+                if i > k {
+                    out.class("row-after-deviation-checked");
+                }
+                for o in row.outputs.iter().filter(|o| !o.is_virtual) {
+                    let Some(si) = built.sigs.iter().position(|s| s.name == o.name) else { continue };
+                    // what the driver reported for this very signal in this call (first entry)
+                    let reported = call.answer.iter().find(|(s, _)| *s == si).map(|(_, v)| *v).unwrap_or(crate::model::OutVal::X);
+                    if o.output != reported {
+                        out.fail(
+                            "c13:misattributed-after-deviation",
+                            format!(
+                                "item {i} (deviation was at item {k}): the row reports {} = {}, the driver reported {} for it in this call (answer {:?})",
+                                o.name, o.output, reported, call.answer
+                            ),
+                        );
+                        return out;
+                    }
+                }
             }
             for i in 0..k {
                 if real.items.get(i) != base.items.get(i) {
